@@ -56,25 +56,25 @@ def confirm(sid):
         race = "-race " if "-race" in demo or sid.startswith("C13") else ""
         # baseline: demo passes without the change
         shutil.copy(os.path.join(sd, "demo_test.go.txt"), demo_path)
-        rc, out = sh("go test %s-vet=off -count=1 -timeout 300s -run '%s' ." % (race, pat), os.path.join(wt, pkgdir), timeout=400)
+        rc, out = sh("go test -trimpath %s-vet=off -count=1 -timeout 300s -run '%s' ." % (race, pat), os.path.join(wt, pkgdir), timeout=400)
         res["demo_without"] = "pass" if rc == 0 else "FAIL"
         res["demo_without_tail"] = out[-300:]
         os.remove(demo_path)
         sh("git apply %s" % pfile, wt)
-        rc, out = sh("go build ./...", wt)
+        rc, out = sh("go build -trimpath ./...", wt)
         res["builds"] = rc == 0
         if rc:
             res["build_error"] = out[-500:]
             return res
         shutil.copy(os.path.join(sd, "demo_test.go.txt"), demo_path)
-        rc, out = sh("go test %s-vet=off -count=1 -timeout 300s -run '%s' ." % (race, pat), os.path.join(wt, pkgdir), timeout=400)
+        rc, out = sh("go test -trimpath %s-vet=off -count=1 -timeout 300s -run '%s' ." % (race, pat), os.path.join(wt, pkgdir), timeout=400)
         res["demo_with"] = "pass" if rc == 0 else "FAIL"
         res["demo_with_tail"] = out[-400:]
         os.remove(demo_path)
         # the existing suite (root module + touched modules)
         suite = {}
         for mod in sorted(set(["."] + mods)):
-            rc, out = sh("go test -vet=off -count=1 -timeout 25m ./... 2>&1 | grep -E '^(--- FAIL|FAIL|ok|panic:)' | head -40", os.path.join(wt, mod), timeout=1600)
+            rc, out = sh("go test -trimpath -vet=off -count=1 -timeout 25m ./... 2>&1 | grep -E '^(--- FAIL|FAIL|ok|panic:)' | head -40", os.path.join(wt, mod), timeout=1600)
             fails = [l for l in out.splitlines() if l.startswith("--- FAIL")]
             suite[mod] = fails
         res["suite_failures"] = suite
@@ -87,6 +87,7 @@ def confirm(sid):
 
 if __name__ == "__main__":
     ids = [a for a in sys.argv[1:] if not a.startswith("--")] or sorted(os.listdir(os.path.join(ROOT, "seeded")))
+    todo = []
     for sid in ids:
         if not os.path.isdir(os.path.join(ROOT, "seeded", sid)): continue
         cj = os.path.join(ROOT, "seeded", sid, "confirm.json")
@@ -97,6 +98,9 @@ if __name__ == "__main__":
                     continue
             except Exception:
                 pass
-        r = confirm(sid)
-        json.dump(r, open(os.path.join(ROOT, "seeded", sid, "confirm.json"), "w"), indent=1)
-        print(sid, {k: r.get(k) for k in ("applies", "builds", "demo_without", "demo_with", "suite_ok")}, flush=True)
+        todo.append(sid)
+    import concurrent.futures as cf
+    with cf.ThreadPoolExecutor(max_workers=3) as ex:
+        for sid, r in zip(todo, ex.map(confirm, todo)):
+            json.dump(r, open(os.path.join(ROOT, "seeded", sid, "confirm.json"), "w"), indent=1)
+            print(sid, {k: r.get(k) for k in ("applies", "builds", "demo_without", "demo_with", "suite_ok")}, flush=True)
